@@ -343,6 +343,7 @@ void parallel(uint64_t n, const std::function<void(uint64_t)>& body, int chunk) 
 		int slot = pids[p]; pids.erase(p);
 		bool bad = !(WIFEXITED(st) && WEXITSTATUS(st) == 0);
 		if (!bad) continue;
+		if (WIFEXITED(st) && WEXITSTATUS(st) == 7) { if (!shm->stop) pids[spawn(slot, body, chunk, true)] = slot; continue; } // voluntary restart (restart_worker)
 		Slot& sl = shm->slots[slot];
 		add(C_CRASHES);
 		std::string why = WIFSIGNALED(st) ? fmt("killed by signal %d", WTERMSIG(st)) : fmt("exit status %d", WEXITSTATUS(st));
@@ -407,6 +408,8 @@ void parallel(uint64_t n, const std::function<void(uint64_t)>& body, int chunk) 
 	}
 	shm->stop = 0;
 }
+
+void restart_worker() { if (!is_worker) return; worker_flush(); fflush(NULL); _exit(7); }
 
 // ---------------------------------------------------------------- output
 int finish() {
